@@ -17,85 +17,7 @@ from ECAgent.Core import Model, ComponentNotFoundError
 import ECAgent.Environments as Env
 
 
-class Frame:
-    """stand-in for pandas.DataFrame (contract above)"""
-    made = []
-
-    def __init__(self, data=None, *a, **k):
-        if a or k or not isinstance(data, dict):
-            raise hx.StubLimit("DataFrame(%r) not modelled" % (type(data).__name__,))
-        self.cols = {}
-        self.n = None
-        Frame.made.append(self)
-        for name, v in data.items():
-            self[name] = v
-
-    def __setitem__(self, name, value):
-        if isinstance(value, np.ndarray):
-            if value.ndim != 1:
-                raise ValueError("column must be 1-dimensional")
-            col = value                    # worst case allowed by the contract: no copy
-        elif isinstance(value, list):
-            col = list(value)              # pandas copies a list into the frame
-        else:
-            raise hx.StubLimit("column assignment from %s not modelled" % type(value).__name__)
-        if self.n is None:
-            self.n = len(col)
-        elif len(col) != self.n:
-            raise ValueError("Length of values (%d) does not match length of index (%d)" % (len(col), self.n))
-        self.cols[name] = col
-
-    def __getitem__(self, name):
-        if name not in self.cols:
-            raise KeyError(name)
-        return self.cols[name]
-
-    def __contains__(self, name):
-        return name in self.cols
-
-    def __len__(self):
-        return self.n or 0
-
-    def drop(self, columns=None, inplace=False, **k):
-        if k or not inplace or not isinstance(columns, list):
-            raise hx.StubLimit("drop(%r, inplace=%r) not modelled" % (columns, inplace))
-        for c in columns:
-            if c not in self.cols:
-                raise KeyError(c)
-        for c in columns:
-            del self.cols[c]
-
-    @property
-    def iloc(self):
-        frame = self
-
-        class _I:
-            def __getitem__(self, i):
-                return {c: v[i] for c, v in frame.cols.items()}
-        return _I()
-
-    def __getattr__(self, n):
-        raise hx.StubLimit("DataFrame.%s not modelled" % n)
-
-
-class _FakePandas:
-    DataFrame = Frame
-    Series = dict
-
-    def __getattr__(self, n):
-        raise hx.StubLimit("pandas.%s not modelled" % n)
-
-
-class _Patched:
-    def __enter__(self):
-        self.saved = Env.pandas
-        Env.pandas = _FakePandas()
-        Frame.made = []
-        return self
-
-    def __exit__(self, *a):
-        Env.pandas = self.saved
-        return False
+from vf.stubs import Frame, patched_pandas as _Patched
 
 
 def _mk(kind, m):
